@@ -67,7 +67,9 @@ RULE = ("case = integer variable (type, factor, description table 1..20, bit def
         "ranges within 32 bits x spellings {int,list,slice,slice-step1,slice-nostart,name,"
         "list-descending} x carrier types that hold them (quick: UNSIGNED32 + one rotating type, "
         "thorough: every type), reads of every field ending at the sign bit of INTEGER8..32, ~120 factors x types x boundary raws x offsets inside the rounding "
-        "interval, tables of every size 1..20 x types; Hypothesis adds mixed histories. Oracle: "
+        "interval, tables of every size 1..20 x types; Hypothesis adds mixed histories, incl. "
+        "edits of the description table between uses (add_value_description: new text for a described "
+        "value, or one more entry). Oracle: "
         "bit-pattern model + exact rationals: |raw - x/f| <= 1/2 + 2^-51|x/f|, |readback - x| <= "
         "|f|/2 + float slack, desc/bits exact; stored bytes decoded by the harness. Non-trivial = a "
         "phys op with factor != 1, a desc op on a table of >= 2 entries, or a bit op with lo > 0 and "
@@ -483,6 +485,22 @@ def _run_on(cname, case, D):
                     break
                 ret = "refused"
 
+        elif kind == "redesc":
+            # the application edits the table after it has been used: the text of a described value is
+            # replaced, or a new entry is added (ODVariable.add_value_description, the documented way)
+            v, text = int(op["value"]), op["text"]
+            if text in by_text and by_text[text] != v:
+                raise ValueError("generator error: description texts must stay distinct")
+            ok, r = _call(lambda: var.od.add_value_description(v, text))
+            if not ok:
+                bad("desc/edit-raises", f"{tag}: {_exc(r)}")
+                break
+            if v in table:
+                by_text.pop(table[v], None)
+            table[v] = text
+            by_text[text] = v
+            ret = "edited"
+
         elif kind == "desc_get":
             ok, d = _call((lambda: var.read(fmt="desc")) if api == "rw" else (lambda: var.desc))
             cur = _val(dt, U)
@@ -596,7 +614,7 @@ def classify(case):
         if k == "phys":
             kinds["phys"] += 1
             nontrivial |= case["factor"] != 1
-        elif k in ("desc", "desc_get"):
+        elif k in ("desc", "desc_get", "redesc"):
             kinds["desc"] += 1
             nontrivial |= len(case["descs"]) >= 2
         elif k in ("bset", "bget"):
@@ -877,6 +895,18 @@ def desc_cases(thorough):
             for c in range(0, len(ops), 8):
                 yield base_case(dt, ops[c:c + 8], init=values[(c // 8) % n], descs=descs, salt=i + c,
                                 factor=(1, 0.5, -3, 1e-3)[i % 4])
+            # the table is edited after it was used: the new text names the value, the old one nothing
+            j = i % n
+            yield base_case(dt, [{"op": "desc", "text": texts[j]},
+                                 {"op": "redesc", "value": values[j], "text": texts[j] + " (new)"},
+                                 {"op": "desc_get"},
+                                 {"op": "desc", "text": texts[(j + 1) % n], "api": "rw"},
+                                 {"op": "desc", "text": texts[j] + " (new)"},
+                                 {"op": "desc", "text": texts[j]}] if n > 1 else
+                            [{"op": "desc", "text": texts[0]},
+                             {"op": "redesc", "value": values[0], "text": texts[0] + " (new)"},
+                             {"op": "desc", "text": texts[0] + " (new)"}, {"op": "desc", "text": texts[0]}],
+                            init=values[0], descs=descs, salt=i, factor=1)
 
 
 # -- Hypothesis: mixed histories ------------------------------------------------------------------
@@ -913,6 +943,7 @@ def mixed_case(draw, kinds):
     values = draw(st.lists(_raw_strategy(dt), min_size=1, max_size=n, unique=True))
     texts = draw(st.lists(_TEXT, min_size=len(values), max_size=len(values), unique=True))
     descs = [[v, t] for v, t in zip(values, texts)]
+    values, texts, retired = list(values), list(texts), []
     usable = min(32, _usable(dt))
     ops = []
     for _ in range(draw(st.integers(1, 8))):
@@ -933,8 +964,30 @@ def mixed_case(draw, kinds):
             if x is None:
                 continue
             ops.append({"op": "phys", "x": x, "api": draw(st.sampled_from(["attr", "attr", "rw"]))})
+        elif kind == "desc" and draw(st.integers(0, 5)) == 0:
+            # the table is edited between uses: another text for a described value, or one more entry
+            if draw(st.integers(0, 2)) or len(values) >= 20:
+                j = draw(st.integers(0, len(values) - 1))
+            else:
+                j = len(values)
+                v = draw(_raw_strategy(dt))
+                if v in values:
+                    continue
+                values.append(v)
+                texts.append(None)
+            t = draw(_TEXT)
+            while t in texts:
+                t += "#"
+            if texts[j] is not None:
+                retired.append(texts[j])
+            texts[j] = t
+            ops.append({"op": "redesc", "value": values[j], "text": t})
         elif kind == "desc":
-            if draw(st.integers(0, 4)) == 0:
+            if retired and draw(st.integers(0, 3)) == 0:
+                t = draw(st.sampled_from(retired))      # a text that named a value earlier and no longer does
+                if t in texts:
+                    continue
+            elif draw(st.integers(0, 4)) == 0:
                 t = draw(st.one_of(_TEXT, st.sampled_from(texts).map(lambda s: s + " "),
                                    st.sampled_from(texts).map(lambda s: s.swapcase()),
                                    st.sampled_from(texts).map(lambda s: s[:-1] or "?")))
